@@ -175,36 +175,10 @@ def run(ctx):
         raise AnalysisError(f"R19.2: only {len(callers)} Integrate call sites found")
 
     # R19.3 bound on every Newton update
-    r3 = ctx.rule("R19.3", "admissible updates: the local Newton loop applies __Bound to every update of the unknowns", min_instances=1)
-    ff = beh.methods.get("__Flow")
-    if ff is None:
-        raise AnalysisError("Behavior.__Flow not found")
-    loops = [n for n in ast.walk(ff.node) if isinstance(n, (ast.For, ast.While))]
-    r3.instance(fn=ff.qualname)
-    ok = False
-    for lp in loops:
-        body = norm_text(lp)
-        if "__Bound(" in body and ("np.linalg.solve" in body or "solve(" in body or "__Jacobian(" in body):
-            ok = True
-    if ok:
-        r3.ok("__Flow: the Newton loop body passes the update through __Bound")
-    else:
-        r3.fail(ff.qualname, "bound", ff.file, ff.lineno, "__Flow", "a Newton update of the local unknowns is not passed through __Bound (plastic multiplier increments could become negative)")
-
-    # R19.4 elastic degeneration
-    r4 = ctx.rule("R19.4", "a material without internal variables takes the elastic path: Compute_sigma and the elastic C", min_instances=1)
-    f3 = beh.methods["__Integrate_3d"]
-    r4.instance(fn=f3.qualname)
-    okp = False
-    for n in ast.walk(f3.node):
-        if isinstance(n, ast.If) and ("layout.n" in norm_text(n.test) or ".n == 0" in norm_text(n.test) or "not self" in norm_text(n.test)):
-            t = norm_text(ast.Module(body=n.body, type_ignores=[]))
-            if "Compute_sigma" in t and "return" in t:
-                okp = True
-    if okp:
-        r4.ok("__Integrate_3d: n == 0 returns Compute_sigma(...) and the elastic tangent")
-    else:
-        r4.fail(f3.qualname, "elastic-path", f3.file, f3.lineno, "__Integrate_3d", "no early elastic return for a material without internal variables")
+    # (R19.3 looked for the text `__Bound(` next to `solve(` inside a loop of __Flow and R19.4 for an `if ... n == 0` whose body
+    # mentions Compute_sigma: both would fire on an equivalent rewrite - a helper for the Newton step, `if not n`, `n < 1`.
+    # R19.3 is retired in favour of R19.18, which interprets __Flow; R19.4 is decided by interpretation below.)
+    ctx.attempt(elastic_degeneration_rule, ctx)
     condensation_rule(ctx, beh)
     evaluation_point_rule(ctx, beh)
     derivative_rules(ctx)
@@ -1411,3 +1385,59 @@ def plane_stress_flow_rule(ctx, rid="R19.24"):
                     r.ok(f"{tag}: sig_zz of the material's response vanishes")
                 else:
                     r.fail(f.qualname, f"plane-stress-flow:{'rate' if has_rate else 'norate'}:{'branch' if has_br else 'nobranch'}:dt{dt}", f.file, f.lineno, "Behavior.Compute_strain_6d", f"{tag}: at the returned strain the out-of-plane stress of the material's own response is {float(szz) if isinstance(szz, (int, Q)) else szz!r} (stress scale 1e-2): eps_zz was taken from the elastic closed form although the material flows - plane stress leaves an out-of-plane stress")
+
+
+def elastic_degeneration_rule(ctx, rid="R19.4"):
+    """'a material without internal variables is exactly linear elastic': `Behavior.__Integrate_3d` is interpreted on a
+    behaviour whose state layout is empty (no yield surface, no branch): the stress it returns is C eps for a symbolic
+    strain and a rational C, the tangent is C, the state is handed back unchanged and every point is reported converged."""
+    from types import SimpleNamespace
+    from fractions import Fraction as Q
+
+    from ..alg import Poly, is_zero
+    from ..xarray import XArray
+    from ..xeval import Interp, XObj, Opaque, XRaise, EnumVal
+    from ..femchain import XFe, fe_hook_full
+
+    repo = ctx.repo
+    ci = repo.cls(BEH)
+    f = repo.lookup_method(ci, ci.mangle("__Integrate_3d"))
+    r = ctx.rule(rid, "a material without internal variables: __Integrate_3d returns (C eps, C, the state unchanged, all converged) for a symbolic strain", min_instances=1)
+    r.instance(fn=f.qualname)
+    lam, mu = Q(3), Q(2)
+    Cm = [[(lam if i < 3 and j < 3 else Q(0)) + (2 * mu if i == j else Q(0)) for j in range(6)] for i in range(6)]
+    CX = XFe((1, 1, 6, 6), [Poly.const(Cm[i][j]) for i in range(6) for j in range(6)])
+    eps = XFe((1, 1, 6), [Poly.var(f"e{i}") for i in range(6)])
+
+    class Slots(dict):
+        _xeval_open = True
+
+        def get(self, k, default=None):
+            return default
+
+    zold = XFe((1, 1, 0), [])
+    obj = XObj(ci, {ci.mangle("__layout"): SimpleNamespace(n=0, slots=Slots()), ci.mangle("__branches"): (), ci.mangle("__kinematic"): (), ci.mangle("__yield"): None,
+                    ci.mangle("__eigen"): None, "_C_e_pg": lambda Ne, nPg: CX, "C": XArray((6, 6), [Cm[i][j] for i in range(6) for j in range(6)])})
+    I = Interp(repo)
+    I.call_hook = fe_hook_full
+    try:
+        out = I.call_function(f, [eps, zold, Q(1, 10)], self_obj=obj)
+    except XRaise as e:
+        r.fail(f.qualname, "elastic-path", f.file, f.lineno, "__Integrate_3d", f"raises {e}")
+        return
+    sig, Calg, z, conv = out
+    sig, Calg = XArray.from_nested(sig), XArray.from_nested(Calg)
+    want = [sum((Cm[i][j] * eps[0, 0, j] for j in range(6)), Poly()) for i in range(6)]
+    bad = None
+    if sig.shape != (1, 1, 6) or any(not is_zero(Poly.of(sig[0, 0, i]) - want[i]) for i in range(6)):
+        bad = f"the stress is {[str(x) for x in sig.data][:2]}..., not C eps"
+    elif Calg.shape != (1, 1, 6, 6) or any(not is_zero(Poly.of(Calg[0, 0, i, j]) - Cm[i][j]) for i in range(6) for j in range(6)):
+        bad = "the tangent is not the elastic C"
+    elif z is not zold and not (isinstance(z, XArray) and z.shape == zold.shape):
+        bad = "the state handed back is not the (empty) state that was given"
+    elif not all(v is True or v == 1 for v in XArray.from_nested(conv).data):
+        bad = "not every point is reported converged"
+    if bad:
+        r.fail(f.qualname, "elastic-path", f.file, f.lineno, "__Integrate_3d", f"material without internal variables: {bad}: it is not exactly linear elastic")
+    else:
+        r.ok("empty layout: (C eps, C, state unchanged, converged)")
